@@ -925,6 +925,9 @@ def check_C01(ctx):
                 doc = c.get("document") or {}
                 if what.startswith("dropped: member ") and what.endswith("Map") and what[len("dropped: member "):-3] in doc:
                     sig = "C01:dropped:both-spellings"
+                elif what.startswith("idempotence") and any(isinstance(v, dict) and "@context" in v and not isinstance(v["@context"], str) and
+                                                            all(isinstance(x, str) for k, x in v.items() if k != "@context") for k, v in doc.items() if k != "@context"):
+                    sig = "C01:idempotence:context-in-language-map"
                 else:
                     sig = "C01:%s:%s" % (what.split(":")[0], c.get("type"))
                 if ctx.violation(sig, "%s (type %s)" % (what, c.get("type")), {"kind": "document", "index": i, "case": c}):
